@@ -40,13 +40,14 @@ pub fn check_bank_overlap(
                         true,
 
                     (Some(size1), None) =>
-                        outp1 + size1 > outp2,
+                        ends_after(outp1, size1, outp2),
 
                     (None, Some(size2)) =>
-                        outp2 + size2 > outp1,
+                        ends_after(outp2, size2, outp1),
 
                     (Some(size1), Some(size2)) =>
-                        outp1 + size1 > outp2 && outp2 + size2 > outp1,
+                        ends_after(outp1, size1, outp2) &&
+                        ends_after(outp2, size2, outp1),
                 }
             };
 
@@ -71,6 +72,20 @@ pub fn check_bank_overlap(
     }
 
     Ok(())
+}
+
+
+/// Whether the range starting at `start` with the given `size`
+/// ends after `position`, even if its end isn't representable.
+fn ends_after(
+    start: usize,
+    size: usize,
+    position: usize)
+    -> bool
+{
+    start
+        .checked_add(size)
+        .map_or(true, |end| end > position)
 }
 
 
@@ -319,8 +334,11 @@ fn check_bank_output(
 
     if let Some(bank_size) = bankdef.size
     {
-        // FIXME: Addition can overflow
-        if ctx.bank_data.cur_position + size > bank_size
+        let fits = ctx.bank_data.cur_position
+            .checked_add(size)
+            .map_or(false, |end| end <= bank_size);
+
+        if !fits
         {
             report.push_parent(
                 format!(
